@@ -399,15 +399,31 @@ func runC18(rc *RunCtx) *simkit.Violation {
 					out = Viol(prop, "attr-nlink", "GetInodeAttributes", p.path(), "directory %q: the mount says st_nlink %d, a POSIX tree says %d (2 + its %d sub-directories) (history: %s)", p.path(), ga.Attributes.Nlink, want, want-2, tr())
 					return nil, nil
 				}
-				op := &fuseops.ReadDirOp{Inode: p.ino, Offset: 0, Dst: make([]byte, 64*1024)}
-				if err := fs.ReadDir(bg, op); err != nil {
-					out = Viol(prop, "errno", "ReadDir", p.path(), "readdir of a live directory returns %s (history: %s)", errnoName(err), tr())
-					return nil, nil
-				}
-				ents, _ := parseDirents(op.Dst[:op.BytesRead])
+				// one big buffer, or a small one resumed at the offset of the last entry returned (as the kernel does
+				// for directories that do not fit one buffer)
+				bufSize := t.Pick(64*1024, 64*1024, 40, 72, 110)
 				var got, want []string
-				for _, e := range ents {
-					got = append(got, e.Name)
+				off := fuseops.DirOffset(0)
+				for iter := 0; iter < 64; iter++ {
+					op := &fuseops.ReadDirOp{Inode: p.ino, Offset: off, Dst: make([]byte, bufSize)}
+					if err := fs.ReadDir(bg, op); err != nil {
+						out = Viol(prop, "errno", "ReadDir", p.path(), "readdir (offset %d) of a live directory returns %s (history: %s)", off, errnoName(err), tr())
+						return nil, nil
+					}
+					if op.BytesRead == 0 {
+						break
+					}
+					ents, _ := parseDirents(op.Dst[:op.BytesRead])
+					for _, e := range ents {
+						got = append(got, e.Name)
+						off = e.Offset
+					}
+					if bufSize >= 64*1024 {
+						break
+					}
+				}
+				if bufSize < 64*1024 {
+					w.Probe("readdir-resumed")
 				}
 				for n := range p.children {
 					want = append(want, n)
@@ -415,7 +431,7 @@ func runC18(rc *RunCtx) *simkit.Violation {
 				sort.Strings(got)
 				sort.Strings(want)
 				if strings.Join(got, ",") != strings.Join(want, ",") {
-					out = Viol(prop, "readdir-wrong", "ReadDir", p.path(), "directory %q lists %v, the tree holds %v (history: %s)", p.path(), got, want, tr())
+					out = Viol(prop, "readdir-wrong", "ReadDir", p.path(), "directory %q lists %v (buffer %d), the tree holds %v (history: %s)", p.path(), got, bufSize, want, tr())
 					return nil, nil
 				}
 			}
